@@ -14,6 +14,7 @@ import (
 	"github.com/tinode/chat/server/auth"
 	"github.com/tinode/chat/server/store/types"
 	"github.com/tinode/chat/server/zzverif/memdb"
+	"github.com/tinode/chat/server/zzverif/vatomic"
 	"github.com/tinode/chat/server/zzverif/vfev"
 	"github.com/tinode/chat/server/zzverif/vsched"
 )
@@ -214,9 +215,9 @@ func TestVerifC03Suspended(t *testing.T) { vfXSearch(t, "C03", "suspended", "sus
 // ---- suspension / re-activation landing inside the load of a topic ---------------------------------
 //
 // The hub marks the loaded topics of a suspended user read-only from a goroutine of its own, while
-// topicInit may be loading one of them. For every store call k which the load of the group / the
-// p2p topic makes, one execution lets the root's {acc status=...} request run to completion exactly
-// before call k (the loading goroutine is held meanwhile), in both directions (suspend, re-activate).
+// topicInit may be loading one of them. For every store-call boundary and every atomic operation k which the system
+// performs while a member's {sub} loads the group / the p2p topic, one execution lets the root's
+// {acc status=...} request run to completion exactly there (the goroutine at that point is held meanwhile), in both directions (suspend, re-activate).
 // Afterwards a member's publish must be refused iff the owner is suspended.
 
 func TestVerifC03SuspendAtLoad(t *testing.T) {
@@ -227,14 +228,15 @@ func TestVerifC03SuspendAtLoad(t *testing.T) {
 	nb := 0
 	for _, which := range []string{"grp", "p2p"} {
 		for _, dir := range []string{"suspend", "activate"} {
-			calls := 0 // store calls made by the load, learnt from the run without injection (k = 0)
-			for k := 0; k <= calls+1; k++ {
+			events := 0 // store-call boundaries and atomic operations of the load, learnt from the run without injection (k = 0)
+			for k := 0; k <= events+1; k++ {
 				nb++
 				if k > 0 && nb%shards != shard {
 					continue
 				}
 				var injected, suspended, attached bool
 				var subCode, accCode, pubCode, stored int
+				where := "after the load"
 				res := vsched.Run(vsched.Config{MaxSteps: 4000000}, func() {
 					x := vfSuspSetup()
 					p2pName := x.users[0].uid.P2PName(x.users[1].uid)
@@ -267,27 +269,36 @@ func TestVerifC03SuspendAtLoad(t *testing.T) {
 					n := 0
 					prev := memdb.OnCall
 					accID := ""
-					memdb.OnCall = func(name string) {
-						if prev != nil {
-							prev(name)
+					event := func(what string) {
+						if injected {
+							return
 						}
 						n++
-						if n == k && !injected {
+						if n == k {
 							injected = true
+							where = fmt.Sprintf("at event %d (%s)", k, what)
 							accID = x.cl[3].id()
 							x.cl[3].Post(fmt.Sprintf(`{"acc":{"id":"%s","user":"%s","status":"%s"}}`, accID, x.users[0].id(), status))
 							vsched.Quiesce() // everything the request sets off runs to completion; this goroutine is held
 						}
 					}
-					vsched.OnKill(func() { memdb.OnCall = prev })
+					memdb.OnCall = func(name string) {
+						if prev != nil {
+							prev(name)
+						}
+						event("before store call " + name)
+					}
+					memdb.OnReturn = func(name string) { event("after store call " + name) }
+					vatomic.OnOp = func(write bool) { event("atomic operation") }
+					restore := func() { memdb.OnCall, memdb.OnReturn, vatomic.OnOp = prev, nil, nil }
+					vsched.OnKill(restore)
 					subCode, _ = x.cl[1].Req(`{"sub":{"id":"$ID","topic":"%s"}}`, target)
-					calls0 := n
-					memdb.OnCall = prev
+					restore()
 					if k == 0 {
-						calls = calls0
+						events = n
 					}
 					if !injected {
-						// position after the last call: the plain sequential order
+						// position after the last event: the plain sequential order
 						accCode, _ = x.cl[3].Req(`{"acc":{"id":"$ID","user":"%s","status":"%s"}}`, x.users[0].id(), status)
 					} else if ct := vfCtrl(x.cl[3].Take(), accID); ct != nil {
 						accCode = ct.Code
@@ -302,9 +313,9 @@ func TestVerifC03SuspendAtLoad(t *testing.T) {
 					pubCode, _ = x.cl[1].Req(`{"pub":{"id":"$ID","topic":"%s","content":"probe"}}`, target)
 					stored = len(x.w.db.Messages(real)) - before
 				})
-				name := fmt.Sprintf("%s/%s/before-call-%d", which, dir, k)
+				name := fmt.Sprintf("%s/%s/%s", which, dir, where)
 				r.Eval(1)
-				r.Distinct(name)
+				r.Distinct(fmt.Sprintf("%s/%s/%d", which, dir, k))
 				r.States++
 				r.Transitions += int64(res.Steps)
 				r.Traces++
@@ -322,5 +333,5 @@ func TestVerifC03SuspendAtLoad(t *testing.T) {
 			}
 		}
 	}
-	r.Sample("grp/suspend/before-call-3")
+	r.Sample("grp/suspend/at event 7 (after store call TopicGet)")
 }
